@@ -61,7 +61,13 @@ func factsC20(r *Repo) []Fact {
 					continue
 				}
 				cond := exprString(is.Cond)
-				if !strings.Contains(cond, "inputType()==nil") || !strings.Contains(cond, "outputType()==nil") || !strings.Contains(cond, "||") {
+				// either formulation refuses every untyped node: the types a node shows (`inputType()` /
+				// `outputType()`: the map type on a keyed side, else the node's own) or its own types
+				// (`cr.inputType` / `cr.outputType`, nil exactly when nothing typed the node; a shown
+				// type can only be nil when the own one is, so the own-type loop subsumes the other)
+				shown := strings.Contains(cond, "inputType()==nil") && strings.Contains(cond, "outputType()==nil")
+				own := strings.Contains(cond, "cr.inputType==nil") && strings.Contains(cond, "cr.outputType==nil")
+				if !(shown || own) || !strings.Contains(cond, "||") {
 					continue
 				}
 				for _, x := range is.Body.List {
@@ -71,7 +77,7 @@ func factsC20(r *Repo) []Fact {
 				}
 			}
 		}
-		out = append(out, boolFact("compileChecksNodeTypes", checks, "compose/"+file+": compile: `for … range g.nodes { if node.inputType() == nil || node.outputType() == nil { return nil, err } }` before the runner tables are built"))
+		out = append(out, boolFact("compileChecksNodeTypes", checks, "compose/"+file+": compile: `for … range g.nodes { if node.inputType() == nil || node.outputType() == nil { return nil, err } }` (or the same test on node.cr.inputType / node.cr.outputType) before the runner tables are built"))
 	} else {
 		out = append(out, unknownFact("compileAssigns", "List String", "[]", "compose", "method graph.compile not found"))
 		out = append(out, unknownFact("compileReturnsStoredErrFirst", "Bool", "false", "compose", "method graph.compile not found"))
